@@ -33,7 +33,7 @@ func init() {
 }
 
 type pipeFault struct {
-	Kind string `json:"kind"` // none | err | badsyntax | die
+	Kind string `json:"kind"` // none | err | badsyntax | die | panic
 	Pkg  string `json:"pkg"`
 	Gen  string `json:"gen"`
 	At   string `json:"at"` // T1 | T2 | defer
@@ -46,6 +46,7 @@ type pipeStep struct {
 	Entry []string  `json:"entry"`
 	Gens  []string  `json:"gens"`
 	Fault pipeFault `json:"fault"`
+	From  string    `json:"from"` // run: package whose directory gengo is started in ("" = module root)
 	Pkg   string    `json:"pkg"`
 	File  string    `json:"file"`
 	Gen   string    `json:"gen"`
@@ -225,12 +226,19 @@ func runStep(self, root, layout string, pc pipeCase, st pipeStep, scratch string
 	if st.Fault.Kind != "" && st.Fault.Kind != "none" {
 		pp := pipe.PkgPath(layout, st.Fault.Pkg)
 		switch st.Fault.At {
+		case "nested":
+			if st.Fault.Kind != "err" {
+				return nil, fmt.Errorf("fault %s at nested defer unsupported", st.Fault.Kind)
+			}
+			plan[pp+"|"+st.Fault.Gen+"|T1"] = "render_defer_nested_err"
 		case "defer":
 			switch st.Fault.Kind {
 			case "err":
 				plan[pp+"|"+st.Fault.Gen+"|T1"] = "render_defer_err"
 			case "die":
 				plan[pp+"|"+st.Fault.Gen+"|T1"] = "render_defer_die"
+			case "panic":
+				plan[pp+"|"+st.Fault.Gen+"|T1"] = "render_defer_panic"
 			default:
 				return nil, fmt.Errorf("fault %s at defer unsupported", st.Fault.Kind)
 			}
@@ -238,7 +246,7 @@ func runStep(self, root, layout string, pc pipeCase, st pipeStep, scratch string
 			plan[pp+"|"+st.Fault.Gen+"|"+st.Fault.At] = st.Fault.Kind
 		}
 	}
-	spec := pipe.RunSpec{Dir: root, Layout: layout, All: st.All, Force: st.Force, Entry: st.Entry, Plan: plan,
+	spec := pipe.RunSpec{Dir: root, Layout: layout, All: st.All, Force: st.Force, Entry: st.Entry, From: st.From, Plan: plan,
 		Log: filepath.Join(scratch, fmt.Sprintf("calls-%d.ndjson", n)), Result: filepath.Join(scratch, fmt.Sprintf("result-%d.json", n))}
 	for _, g := range st.Gens {
 		spec.Gens = append(spec.Gens, pipe.GenSpec{Name: g, Newer: pc.Newer, Stateful: pc.Stateful})
@@ -267,7 +275,17 @@ func runStep(self, root, layout string, pc pipeCase, st pipeStep, scratch string
 	} else {
 		died = true
 	}
-	if exit != 0 && exit != 7 {
+	if exit == 2 && strings.Contains(se.String(), "panic:") {
+		// an unrecovered panic killed the run
+		msg := se.String()
+		if i := strings.Index(msg, "panic:"); i >= 0 {
+			msg = msg[i:]
+		}
+		if j := strings.Index(msg, "\n"); j >= 0 {
+			msg = msg[:j]
+		}
+		res.Panic = msg
+	} else if exit != 0 && exit != 7 {
 		return nil, fmt.Errorf("run child failed unexpectedly (exit %d): %s", exit, se.String())
 	}
 	calls := []callObs{}
@@ -294,7 +312,7 @@ func runStep(self, root, layout string, pc pipeCase, st pipeStep, scratch string
 	if err != nil {
 		return nil, err
 	}
-	obs := map[string]any{"exit": exit, "died": died, "load_err": res.LoadErr, "err": res.Err, "panic": res.Panic, "failed": res.Err != "" || res.LoadErr != "" || res.Panic != "",
+	obs := map[string]any{"exit": exit, "died": died, "load_err": res.LoadErr, "err": res.Err, "panic": res.Panic, "failed": res.Err != "" || res.LoadErr != "",
 		"calls": calls, "pre": pre, "post": post, "changes": diff(pre.files, post.files)}
 	// independent string facts about the error text (C02)
 	f := st.Fault
@@ -477,7 +495,7 @@ func (pipelineFam) Rand(n int, rng *rand.Rand, emit func(cas any)) error {
 					st.Gens = append(st.Gens, gensAll[x])
 				}
 				if rng.IntN(4) == 0 {
-					st.Fault = pipeFault{Kind: []string{"err", "badsyntax", "die"}[rng.IntN(3)], Pkg: pkgs[rng.IntN(3)], Gen: st.Gens[rng.IntN(len(st.Gens))], At: []string{"T1", "T2", "defer"}[rng.IntN(3)]}
+					st.Fault = pipeFault{Kind: []string{"err", "badsyntax", "die", "panic"}[rng.IntN(4)], Pkg: pkgs[rng.IntN(3)], Gen: st.Gens[rng.IntN(len(st.Gens))], At: []string{"T1", "T2", "defer"}[rng.IntN(3)]}
 					if st.Fault.At == "defer" && st.Fault.Kind == "badsyntax" {
 						st.Fault.At = "T2"
 					}
